@@ -36,6 +36,12 @@ impl SenderInner {
         ensures final(self).sends@ == old(self).sends@.push((sendable, state, batchable)), final(self).link == old(self).link, final(self).detaches == old(self).detaches,
             r == settlement_of(*old(self), sendable, batchable),
     { unimplemented!() }
+    /// send_ref_with_state: the same send, the sendable borrowed (unit SENDINNER)
+    #[verifier::external_body]
+    pub fn send_ref_with_state(&mut self, sendable: &Sendable, state: Option<DeliveryState>, batchable: bool) -> (r: Result<Settlement, SendError>)
+        ensures final(self).sends@ == old(self).sends@.push((*sendable, state, batchable)), final(self).link == old(self).link, final(self).detaches == old(self).detaches,
+            r == settlement_of(*old(self), *sendable, batchable),
+    { unimplemented!() }
     #[verifier::external_body]
     pub fn detach_with_error(&mut self, error: Option<AmqpError>) -> (r: Result<(), DetachError>)
         ensures final(self).detaches@ == old(self).detaches@.push((false, error)), final(self).sends == old(self).sends, r == detach_result(*old(self), false, error),
@@ -75,6 +81,44 @@ impl Sender {
         final(self).inner.sends@ == old(self).inner.sends@.push((sendable, None::<DeliveryState>, true)),
         r is Ok ==> settlement_of(old(self).inner, sendable, true) is Ok && r->Ok_0.settlement == settlement_of(old(self).inner, sendable, true)->Ok_0
             && r->Ok_0.stop == old(self).inner.link.session_stop_reason,       // [C02.sender-api.batchable-future-is-this-deliverys] the future handed back resolves with this delivery's settlement
+//@@ end
+
+//@@ fn file=fe2o3-amqp/src/link/sender.rs impl=`impl Sender` name=send_ref
+//@@ awaitcall
+//@@ generics
+//@@ param sendable : &Sendable
+//@@ subst `.send_ref_with_state::<T, SendError>(` => `.send_ref_with_state(` rule=R7
+//@@ subst `.map(|settlement| { __E1 })` => `.map(|settlement: Settlement| -> (o: DeliveryFut) ensures o.settlement == settlement && o.stop == self.inner.link.session_stop_reason { __E1 })` rule=R18 unless `\.map\(`
+//@@ spec
+    ensures
+        final(self).inner.sends@ == old(self).inner.sends@.push((*sendable, None::<DeliveryState>, false)),          // [C02.sender-api.send-sends-once] (the borrowed form: the same one delivery, without a preset state, not batchable)
+        settlement_of(old(self).inner, *sendable, false) is Ok ==> r == fut_outcome(DeliveryFut { settlement: settlement_of(old(self).inner, *sendable, false)->Ok_0, stop: old(self).inner.link.session_stop_reason }),   // [C02.sender-api.send-completes-with-its-own-settlement]
+        settlement_of(old(self).inner, *sendable, false) is Err ==> r is Err,
+//@@ end
+
+//@@ fn file=fe2o3-amqp/src/link/sender.rs impl=`impl Sender` name=send_batchable_ref
+//@@ awaitcall
+//@@ generics
+//@@ param sendable : &Sendable
+//@@ ret Result<DeliveryFut, SendError>
+//@@ subst `.map(|settlement| { __E1 })` => `.map(|settlement: Settlement| -> (o: DeliveryFut) ensures o.settlement == settlement && o.stop == self.inner.link.session_stop_reason { __E1 })` rule=R18 unless `\.map\(`
+//@@ spec
+    ensures
+        final(self).inner.sends@ == old(self).inner.sends@.push((*sendable, None::<DeliveryState>, true)),
+        r is Ok ==> settlement_of(old(self).inner, *sendable, true) is Ok && r->Ok_0.settlement == settlement_of(old(self).inner, *sendable, true)->Ok_0
+            && r->Ok_0.stop == old(self).inner.link.session_stop_reason,       // [C02.sender-api.batchable-future-is-this-deliverys]
+//@@ end
+
+//@@ fn file=fe2o3-amqp/src/link/sender.rs impl=`impl Sender` name=detach_with_error
+//@@ awaitcall
+//@@ generics
+//@@ subst `(mut self,` => `(mut this: Sender,` rule=R2
+//@@ subst `self.` => `this.` rule=R2
+//@@ param error : AmqpError
+//@@ subst `error.into()` => `error_into(error)` rule=R16
+//@@ spec
+    ensures (r is Ok) == (detach_result(this.inner, false, Some(error)) is Ok),     // [C13.api.detach-with-error-carries-the-error] the non-closing handshake, with THIS error in the detach
+        r is Err ==> Err::<(), DetachError>(r->Err_0.1) == detach_result(this.inner, false, Some(error)),   // [C13.api.detach-error-is-the-handshakes]
 //@@ end
 
 //@@ fn file=fe2o3-amqp/src/link/sender.rs impl=`impl Sender` name=close
@@ -156,6 +200,18 @@ impl Receiver {
 //@@ spec
     ensures (r is Ok) == (rdetach_result(this.inner, false, None::<AmqpError>) is Ok),     // [C13.api.detach-is-a-non-closing-detach] (receiver)
         r is Err ==> Err::<(), DetachError>(r->Err_0.1) == rdetach_result(this.inner, false, None::<AmqpError>),
+//@@ end
+
+//@@ fn file=fe2o3-amqp/src/link/receiver.rs impl=`impl Receiver` name=detach_with_error
+//@@ awaitcall
+//@@ generics
+//@@ subst `(mut self,` => `(mut this: Receiver,` rule=R2
+//@@ subst `self.` => `this.` rule=R2
+//@@ param error : AmqpError
+//@@ subst `error.into()` => `error_into(error)` rule=R16
+//@@ spec
+    ensures (r is Ok) == (rdetach_result(this.inner, false, Some(error)) is Ok),     // [C13.api.detach-with-error-carries-the-error] (receiver)
+        r is Err ==> Err::<(), DetachError>(r->Err_0.1) == rdetach_result(this.inner, false, Some(error)),
 //@@ end
 }
 
